@@ -1,55 +1,15 @@
 /-
-  C12/LemmasTamperRd.lean — the out-of-range `Delegate` fact (`ReaderSpecs2`) for both readers, and the
-  tamper-detection theorems with the reader interfaces discharged.
+  C12/LemmasTamperRd.lean — the out-of-range `Delegate` fact (`ReaderSpecs2`, proved for both readers in
+  LemmasReader2.lean), and the tamper-detection theorems with the reader interfaces discharged.
 -/
 import NdnVerif.C03.LemmasReader
+import NdnVerif.C12.LemmasReader2
 import NdnVerif.C12.LemmasTamper
 namespace Ndn.C12
 open Ndn.C03
 
-theorem buf_delegate_oob (b : BufR) (buf : Bytes) (p l : Nat) (sub r' : Rd) (h : At (.buf b) buf p)
-    (hl : p + l > buf.length) (e : (Rd.buf b).delegate l = .ok (sub, r')) : ∃ p', p ≤ p' ∧ At r' buf p' := by
-  obtain ⟨rfl, hp⟩ := (at_buf_iff _ _ _).1 h
-  simp [Rd.delegate, BufR.delegate, hl] at e
-  obtain ⟨_, rfl⟩ := e
-  exact ⟨p, Nat.le_refl _, h⟩
-
-theorem wire_delegate_oob (w : WireR) (buf : Bytes) (p l : Nat) (sub r' : Rd) (h : At (.wire w) buf p)
-    (hl : p + l > buf.length) (e : (Rd.wire w).delegate l = .ok (sub, r')) : ∃ p', p ≤ p' ∧ At r' buf p' := by
-  obtain ⟨hinv, h2, h3, h4, h5⟩ := at_wire_dest h
-  obtain ⟨hb1, _, _, hb4⟩ := at_wire_buf h
-  have hn : ¬ (w.absPos + l ≤ w.wire.flatten.length) := fun hh => by have := (hb4 l).2 hh; omega
-  have hpre := hinv.pre
-  simp only [Rd.delegate] at e
-  obtain ⟨⟨s1, w1⟩, e1, e2⟩ := bind_ok_inv e
-  obtain ⟨rfl, rfl⟩ : s1 = sub ∧ Rd.wire w1 = r' := by simpa using e2
-  by_cases hseg : w.seg ≥ w.wire.length
-  · simp [WireR.delegate, hseg] at e1
-    obtain ⟨_, rfl⟩ := e1
-    exact ⟨p, Nat.le_refl _, h⟩
-  have hlt : w.seg < w.wire.length := by omega
-  have hsucc := accSz_succ w.wire w.seg hlt
-  have htot := accSz_le_total w.wire (w.seg + 1)
-  rw [accSz_length] at htot
-  have hc : ¬ (w.pos + l ≤ (w.wire[w.seg]?.getD []).length) := by
-    intro hc; apply hn; unfold WireR.absPos; omega
-  have hadv := (advance_spec (w.wire.length + 1) { w with pos := w.pos + l } hlt (by simp only []; omega)).2
-    (by simp only [accSz_length]; unfold WireR.absPos at hn; omega)
-  simp only [WireR.delegate, if_neg hseg, WireR.segAt_eq, if_neg hc, hadv] at e1
-  obtain ⟨_, rfl⟩ : _ ∧ { w with seg := w.wire.length, pos := 0 } = w1 := by simpa using e1
-  have hpre' : WireR.Pre { w with seg := w.wire.length, pos := 0 } :=
-    ⟨Nat.le_refl _, fun hh => by simp only [] at hh; omega, fun _ => rfl⟩
-  have hstep := at_wire_step (l := w.wire.flatten.length - w.absPos) h
-    (w' := { w with seg := w.wire.length, pos := 0 }) rfl rfl
-    (by simp only [WireR.absPos, accSz_length]; unfold WireR.absPos at h5; omega) hpre'
-  exact ⟨_, by omega, hstep⟩
-
 theorem readerSpecs2 : ReaderSpecs2 where
-  delegate_oob := by
-    intro r buf p l sub r' h hl e
-    cases r with
-    | buf b => exact buf_delegate_oob b buf p l sub r' h hl e
-    | wire w => exact wire_delegate_oob w buf p l sub r' h hl e
+  delegate_oob := rd_delegate_oob
 
 /-! ### the theorems for every healthy reader (BufferReader, or WireReader over any segmentation) -/
 
